@@ -416,11 +416,11 @@ class Context(object):
 
         imported = None
         # temporarily adjust the path for importing plugins
-        orig_sys_path = sys.path
+        orig_sys_path = sys.path[:]
         with contextlib.ExitStack() as stack:
             @stack.callback
             def _reset_sys_path():
-                sys.path = orig_sys_path
+                sys.path[:] = orig_sys_path
 
             for pkg_dir in config['general']['packages-dirs']:
                 if Path(pkg_dir).is_absolute():
@@ -435,7 +435,7 @@ class Context(object):
                     sys.path.insert(0, str(path))
                 spec = find_spec(module)
                 if spec is None:
-                    sys.path = orig_sys_path
+                    sys.path[:] = orig_sys_path
                     continue
                 if module in sys.modules and spec.origin != str(pypath):
                     log.warning('Python has already loaded a module named {} '
@@ -449,7 +449,7 @@ class Context(object):
 
             if imported is None:
                 for plugin in reversed(config['general']['plugins']):
-                    sys.path = orig_sys_path
+                    sys.path[:] = orig_sys_path
                     plugin_module = import_module(plugin)
                     assert plugin_module.__file__
                     if not (Path(plugin_module.__file__).parent/'Packages').exists():
